@@ -105,8 +105,8 @@ static jmp_buf cut_jmp; static long api_calls, cut_at;
 #define API do { if (cut_at && ++api_calls >= cut_at) longjmp(cut_jmp, 1); } while (0)
 #define FAILJ longjmp(cut_jmp, 2)
 
-static flatcc_builder_ref_t created[4096]; static int ncreated;
-static flatcc_builder_ref_t remember(flatcc_builder_ref_t r) { if (ncreated < 4096) created[ncreated++] = r; return r; }
+static flatcc_builder_ref_t created[1 << 17]; static int ncreated;
+static flatcc_builder_ref_t remember(flatcc_builder_ref_t r) { if (ncreated < (1 << 17)) created[ncreated++] = r; return r; }
 
 static flatcc_builder_ref_t build_val(node_t *x, int style);
 /* flags & 8: the root table's children are created BEFORE the top-level buffer is started (doc/builder.md: "allowed at the
@@ -350,7 +350,7 @@ int main(void)
     h_init();
     while (h_getline()) {
         int n = h_split(toks, 1 << 16); const char *op = toks[0];
-        if (!strcmp(op, "fresh") && n >= 2) { new_builder(atoi(toks[1])); printf("ok\n"); continue; }
+        if (!strcmp(op, "fresh") && n >= 2) { new_builder(atoi(toks[1])); elog_len = 0; if (elog) elog[0] = 0; printf("ok\n"); continue; }
         if (!strcmp(op, "alloc") && n >= 4) {   /* flatcc_builder_default_alloc growth policy: alloc <hint> <len0> <r1,r2,..> */
             flatcc_iovec_t b; char *p = toks[3]; int hint = atoi(toks[1]); size_t l0 = (size_t)atol(toks[2]);
             b.iov_base = l0 ? malloc(l0) : 0; b.iov_len = l0;
